@@ -78,7 +78,8 @@ class FGen:
 
     # -- expressions
     def const(self):
-        return ["num", self.rng.choice([2, 3, 0.5, 1.5, -1.5, 0.25, -2, 4, 2.5])]
+        # (2 and 2.0, 4 and 4.0: equal values that are written differently in the generated text)
+        return ["num", self.rng.choice([2, 3, 0.5, 1.5, -1.5, 0.25, -2, 4, 2.5, 2.0, 4.0, 3.0])]
 
     def num_leaf(self, sc):
         rng = self.rng
